@@ -63,7 +63,13 @@ func (cb *CircuitBreaker) IsOpen(endpointURL string) bool {
 			// check if it's been a long time, shouldn't have left you
 			// Without a dope beat to step to
 			lastAttempt := atomic.LoadInt64(&state.lastAttempt)
-			return time.Unix(0, lastAttempt).Add(time.Second).After(time.Now())
+			if time.Unix(0, lastAttempt).Add(time.Second).After(time.Now()) {
+				return true
+			}
+			// The previous probe's one-second window has passed without an outcome: admit one
+			// more probe and re-arm the window for it, so that the callers arriving now do not
+			// all pass (at most one probe per second while half-open).
+			return !atomic.CompareAndSwapInt64(&state.lastAttempt, lastAttempt, now)
 		}
 		return true
 	}
